@@ -181,6 +181,9 @@ HTML_CALLBACK = {
                  'len(name) >= 1',
                  'start + (2 if elem_type == 2 else 1) + len(name) < end',
                  'forall(0, len(name), lambda i: source[start + (2 if elem_type == 2 else 1) + i] == name[i])',
+                 # a closing tag starts with `</`, a self-closing one ends with `/>`
+                 "implies(elem_type == 2, source[start + 1] == '/')",
+                 "implies(elem_type == 3, source[end - 2] == '/')",
                  # increasing, non-overlapping order
                  'g_last_end <= start'],
     'ghost_update': [('g_last_end', 'end')],
@@ -242,6 +245,26 @@ define('open_close_ok', ['o', 'c', 'n'],
 
 HCB_PARAMS = {'name': 'str', 'elem_type': 'int', 'start': 'int', 'end': 'int'}
 HCB_REQ = ['0 <= start', 'start < end', 'end <= len(source)', 'g_last_end <= start']
+# match(): everything scan() promises about a tag
+HCB_REQ_FULL = list(HTML_CALLBACK['requires'])
+# the text of an opening / self-closing tag `<name ...>` resp. of a closing tag `</name>` of `source`
+define('open_shape', ['s', 'e', 'nm', 'source'],
+       "source[s] == '<' and source[e - 1] == '>' and len(nm) >= 1 and s + 1 + len(nm) < e and "
+       'forall(0, len(nm), lambda k: source[s + 1 + k] == nm[k])')
+define('close_shape', ['s', 'e', 'nm', 'source'],
+       "source[s] == '<' and source[s + 1] == '/' and source[e - 1] == '>' and s + 2 + len(nm) < e and "
+       'forall(0, len(nm), lambda k: source[s + 2 + k] == nm[k])')
+
+# C09 "ranges slice exactly to the element's tags", for a MatchedTag r (or None).  The quantifiers are outermost
+# (an empty range stands for "no result" / "no closing tag"): a universal under a disjunction is poorly triggered
+MATCH_SHAPE = [
+    "%(r)s is None or (source[%(r)s.open[0]] == '<' and source[%(r)s.open[1] - 1] == '>' and len(%(r)s.name) >= 1 "
+    " and %(r)s.open[0] + 1 + len(%(r)s.name) < %(r)s.open[1])",
+    'forall(0, (0 if %(r)s is None else len(%(r)s.name)), lambda k: source[%(r)s.open[0] + 1 + k] == %(r)s.name[k])',
+    "%(r)s is None or %(r)s.close is None or (source[%(r)s.close[0]] == '<' and source[%(r)s.close[0] + 1] == '/' "
+    " and source[%(r)s.close[1] - 1] == '>' and %(r)s.close[0] + 2 + len(%(r)s.name) < %(r)s.close[1])",
+    'forall(0, (0 if (%(r)s is None or %(r)s.close is None) else len(%(r)s.name)), '
+    ' lambda k: source[%(r)s.close[0] + 2 + k] == %(r)s.name[k])']
 
 HM_CAP = {'pool': 'list[Tag]', 'stack': 'list[Tag]', 'result': 'list[MatchedTag|None]', 'options': 'ScannerOptions',
           'pos': 'int', 'source': 'str', 'g_last_end': 'int'}
@@ -252,18 +275,28 @@ HM_INV = ['len(result) == 1', 'pool is not stack',
           # every open tag on the stack ended before anything reported later starts
           'forall(0, len(stack), lambda i: tag_ok(stack[i], len(source)) and stack[i].end <= g_last_end)',
           'result[0] is None or (open_close_ok(result[0].open, result[0].close, len(source)) and '
-          ' result[0].open[0] < pos and pos < (result[0].open[1] if result[0].close is None else result[0].close[1]))']
+          ' result[0].open[0] < pos and pos < (result[0].open[1] if result[0].close is None else result[0].close[1]))',
+          # every open tag waiting on the stack is the text `<name ...>` of the source
+          'forall(0, len(stack), lambda i: len(stack[i].name) >= 1 and '
+          ' open_shape(stack[i].start, stack[i].end, stack[i].name, source))',
+          # C09: the ranges slice exactly to the element's tags, and the attribute ranges lie in the open tag
+          ] + [c % {'r': 'result[0]'} for c in MATCH_SHAPE] + [
+          'result[0] is None or (owned(result[0].attributes) and forall(0, len(result[0].attributes), lambda i: '
+          ' attr_ok(result[0].attributes[i], result[0].open[0], result[0].open[1])))']
 
 fn('emmet.html_matcher:match.<locals>.scan_callback', props=P,
    params=HCB_PARAMS, returns='bool|None', captures=HM_CAP,
-   requires=HCB_REQ, closure_invariant=HM_INV, modifies=['owned'],
+   requires=HCB_REQ_FULL, closure_invariant=HM_INV, modifies=['owned'],
    ghost_update=[('g_last_end', 'end')])
 
 fn('emmet.html_matcher:match', props=P,
    params={'source': 'str', 'pos': 'int', 'opt': 'any'}, returns='MatchedTag|None',
    requires=[],
    ensures=['result is None or (open_close_ok(result.open, result.close, len(source)) and '
-            ' result.open[0] < pos and pos < (result.open[1] if result.close is None else result.close[1]))'],
+            ' result.open[0] < pos and pos < (result.open[1] if result.close is None else result.close[1]))',
+            ] + [c % {'r': 'result'} for c in MATCH_SHAPE] + [
+            'result is None or forall(0, len(result.attributes), lambda i: '
+            ' attr_ok(result.attributes[i], result.open[0], result.open[1]))'],
    modifies=[], allocates=True,
    locals={'pool': 'list[Tag]', 'stack': 'list[Tag]', 'result': 'list[MatchedTag|None]'})
 
